@@ -64,7 +64,29 @@ pub struct WorkerSummary {
 
 /// the zipped deployment layout: MathCAT's own build.rs output, embedded by the include-zip feature
 pub fn load_zipped_base() -> Option<BaseTree> {
-    None
+    use std::io::Read;
+    let mut archive = zip::ZipArchive::new(std::io::Cursor::new(libmathcat::ZIPPED_RULE_FILES)).ok()?;
+    let mut files = std::collections::BTreeMap::new();
+    for i in 0..archive.len() {
+        let mut f = archive.by_index(i).ok()?;
+        if !f.is_file() {
+            continue;
+        }
+        let name = f.enclosed_name()?.to_string_lossy().replace('\\', "/");
+        let Some(rel) = name.strip_prefix("Rules/") else { continue };
+        let mut bytes = Vec::with_capacity(f.size() as usize);
+        f.read_to_end(&mut bytes).ok()?;
+        files.insert(rel.to_string(), std::sync::Arc::from(bytes.into_boxed_slice()));
+    }
+    if files.is_empty() {
+        return None;
+    }
+    let mut h = crate::rng::Fnv::new();
+    for (k, v) in &files {
+        h.str(k);
+        h.u64(crate::rng::fnv_bytes(v));
+    }
+    Some(BaseTree { files, hash: h.0 })
 }
 
 fn work_dir() -> PathBuf {
